@@ -60,6 +60,10 @@ def shards(tier):
         out.append({"part": "single", "kind": kind, "tier": tier, "n": 3, "first": None, "numeric": True, "alpha": V.alphabet(kind, "key")})
     for k1, k2 in PAIRS:
         out.append({"part": "pair", "k1": k1, "k2": k2, "n": n})
+    # an integer key beyond 2**53 next to a float key (no common NumPy type holds both exactly), and two float keys
+    # holding infinities of opposite sign (their sum is NaN although nothing is missing)
+    out.append({"part": "pair", "k1": "i8", "k2": "f8", "n": 3, "alphas": [[9007199254740992, 9007199254740993, 0], ["1.0", "2.0"]]})
+    out.append({"part": "pair", "k1": "f8", "k2": "f8", "n": 2, "alphas": [[None, "inf", "-inf", "1.0"], [None, "inf", "-inf", "1.0"]]})
     # size ladder: periodic frames just above powers of two / ten (a chunked or cached implementation must not care)
     for kind in ("f8", "str", "i8", "D"):
         for length in ([17, 129, 1025] if tier == "quick" else [17, 129, 1025, 65537]):
@@ -423,7 +427,7 @@ def run_shard(shard, rec):
                 check_case({"cols": cols, "ops": ops, "grouped": True}, rec)
     else:
         k1, k2, n = shard["k1"], shard["k2"], shard["n"]
-        a1, a2 = V.alphabet(k1, "key"), V.alphabet(k2, "key")
+        a1, a2 = shard.get("alphas") or (V.alphabet(k1, "key"), V.alphabet(k2, "key"))
         for m in range(0, n + 1):
             for t1 in itertools.product(a1, repeat=m):
                 for t2 in itertools.product(a2, repeat=m):
